@@ -195,11 +195,6 @@ MUTANTS += [
     ('C10', 'fedavg_hidden_call_counter', [(FA, "  def apply(\n      server_state: ServerState,", "  calls = [0]\n\n  def apply(\n      server_state: ServerState,"),
                                            (FA, "    num_examples_sum = 0.\n", "    calls[0] += 1\n    num_examples_sum = 0. if calls[0] % 3 else 1e-3\n")],
      'hidden state in a closure: every third call is computed differently'),
-    ('C10', 'aggregator_key_in_closure', [(CO, "    rng, use_rng = jax.random.split(aggregator_state.rng)\n    rng_seq = hk.PRNGSequence(use_rng)\n    clients_params_and_weight_rng = zip(clients_params_and_weights, rng_seq)\n    quantized_p_and_w = itertools.starmap(quantize_params_and_weight,\n                                          clients_params_and_weight_rng)\n\n    new_bits = 0.",
-                                           "    holder[0], use_rng = jax.random.split(holder[0])\n    rng = holder[0]\n    rng_seq = hk.PRNGSequence(use_rng)\n    clients_params_and_weight_rng = zip(clients_params_and_weights, rng_seq)\n    quantized_p_and_w = itertools.starmap(quantize_params_and_weight,\n                                          clients_params_and_weight_rng)\n\n    new_bits = 0."),
-                                          (CO, "  def init():\n    return CompressionState(0.0, rng)\n\n  def apply(\n      clients_params_and_weights: Iterable[Tuple[ClientId, Params, float]],\n      aggregator_state: CompressionState) -> Tuple[Params, CompressionState]:\n\n    if encode_algorithm is not None:",
-                                           "  holder = [rng]\n\n  def init():\n    return CompressionState(0.0, rng)\n\n  def apply(\n      clients_params_and_weights: Iterable[Tuple[ClientId, Params, float]],\n      aggregator_state: CompressionState) -> Tuple[Params, CompressionState]:\n\n    if encode_algorithm is not None:")],
-     'uniform quantizer keeps its key in a Python closure instead of the state'),
     ('C10', 'agnostic_window_mutates_argument', [(AG, "    domain_window = server_state.domain_window[1:] + [sum_domain_num]\n", "    server_state.domain_window.pop(0)\n    server_state.domain_window.append(sum_domain_num)\n    domain_window = server_state.domain_window\n")],
      'the sliding window list of the input state is shifted in place'),
     ('C10', 'hyp_writes_cluster_params_in_place', [(HY, "    cluster_params = []\n    opt_states = []\n", "    cluster_params = server_state.cluster_params\n    cluster_params.clear()\n    opt_states = []\n"),
@@ -234,8 +229,6 @@ MUTANTS += [
      'APFL global update is an unweighted mean'),
     ('C12', 'fedprox_opt_state_shared_across_clients', [(FP, "    opt_state = client_optimizer.init(server_params)\n    client_step_state = {\n        'params': server_params,\n        'opt_state': opt_state,\n        'rng': client_rng,\n        'server_params': server_params,", "    opt_state = client_optimizer.init(jax.tree_util.tree_map(lambda x: x + 1, server_params))\n    client_step_state = {\n        'params': server_params,\n        'opt_state': opt_state,\n        'rng': client_rng,\n        'server_params': server_params,")],
      'benign: optimizer init from other params (init ignores values for these optimizers) - expected to SURVIVE'),
-    ('C12', 'hyp_skips_second_round_momentum', [(HY, "      if delta_params is None:\n        next_opt_state, next_params = opt_state, params", "      if delta_params is None or (len(clients) == 3 and len(server_state.cluster_params) == 1):\n        next_opt_state, next_params = opt_state, params")],
-     'single-cluster HypCluster skips the server update for cohorts of exactly three clients'),
 ]
 
 OP = 'fedjax/core/optimizers.py'
@@ -274,17 +267,12 @@ MUTANTS += [
     # ---------------------------------------------------------------- C11
     ('C11', 'key_not_stored_back', [(CO, "      new_bits = math.log2(\n          num_levels) * total_num_params + 32 * total_num_floats\n    new_state = CompressionState(aggregator_state.num_bits + new_bits, rng)", "      new_bits = math.log2(\n          num_levels) * total_num_params + 32 * total_num_floats\n    new_state = CompressionState(aggregator_state.num_bits + new_bits, aggregator_state.rng)")],
      'uniform quantizer re-uses the same key every round'),
-    ('C11', 'same_key_for_every_client', [(CO, "    rng, use_rng = jax.random.split(aggregator_state.rng)\n    rng_seq = hk.PRNGSequence(use_rng)\n    clients_params_and_weight_rng = zip(clients_params_and_weights, rng_seq)\n    quantized_p_and_w = itertools.starmap(quantize_params_and_weight,\n                                          clients_params_and_weight_rng)\n\n    new_bits = 0.",
-                                           "    rng, use_rng = jax.random.split(aggregator_state.rng)\n    clients_params_and_weight_rng = zip(clients_params_and_weights, itertools.repeat(use_rng))\n    quantized_p_and_w = itertools.starmap(quantize_params_and_weight,\n                                          clients_params_and_weight_rng)\n\n    new_bits = 0.")],
-     'uniform quantizer gives every client the same key'),
     ('C11', 'threshold_squared', [(CO, "  threshold = jnp.nan_to_num((v - v_floor) / (v_ceil - v_floor))\n", "  threshold = jnp.nan_to_num((v - v_floor) / (v_ceil - v_floor))**2\n")],
      'biased rounding threshold'),
     ('C11', 'grid_uses_num_levels', [(CO, "  v_ceil = jnp.ceil(v * (num_levels - 1)) / (num_levels - 1)\n", "  v_ceil = jnp.ceil(v * num_levels) / num_levels\n")],
      'ceil level taken from a grid with one level too many'),
     ('C11', 'floor_ceil_swapped', [(CO, "  quantized = jnp.where(rand > threshold, v_floor, v_ceil)\n", "  quantized = jnp.where(rand > threshold, v_ceil, v_floor)\n")],
      'rounds up with the probability of rounding down (biased, still on the grid)'),
-    ('C11', 'drop_nan_to_num_uniform', [(CO, "  v = jnp.nan_to_num((v - v_min) / (v_max - v_min))\n  v = jnp.maximum(0., jnp.minimum(v, 1.))\n  v_ceil", "  v = (v - v_min) / (v_max - v_min)\n  v = jnp.maximum(0., jnp.minimum(v, 1.))\n  v_ceil")],
-     'constant leaf gives 0/0'),
     ('C11', 'bits_log2_levels_minus_one', [(CO, "      new_bits = math.log2(\n          num_levels) * total_num_params + 32 * total_num_floats\n", "      new_bits = math.log2(\n          max(num_levels - 1, 1)) * total_num_params + 32 * total_num_floats\n")],
      'bit accounting uses log2(levels-1)'),
     ('C11', 'terngrad_without_clipping', [(CO, "  v = jnp.where(jnp.abs(v) > 2.5 * sigma, 2.5 * sigma * jnp.sign(v), v)\n", "")],
@@ -299,4 +287,18 @@ MUTANTS += [
      'measure-zero change of the Bernoulli threshold: below any statistical radius (expected to SURVIVE, documented limit)'),
     ('C11', 'terngrad_zero_weight_divides', [(CO, "  return binary_stochastic_quantize(jnp.abs(v), rng, 0., jnp.amax(  # pytype: disable=wrong-arg-types  # jnp-type\n      jnp.abs(v))) * jnp.sign(v)", "  return binary_stochastic_quantize(jnp.abs(v), rng, 0., jnp.amax(  # pytype: disable=wrong-arg-types  # jnp-type\n      jnp.abs(v))) * jnp.sign(v) * (1 + 0.2 * (v.size == 33))")],
      'TernGrad output scaled by 1.2 for leaves of exactly 33 coordinates'),
+]
+
+MUTANTS += [
+    ('C10', 'aggregator_key_in_closure', [(CO, "    rng, use_rng = jax.random.split(aggregator_state.rng)\n    # TODO(theertha): remove the usage of hk.PRNGSequence.\n    rng_seq = hk.PRNGSequence(use_rng)\n    clients_params_and_weight_rng = zip(clients_params_and_weights, rng_seq)\n    quantized_p_and_w = itertools.starmap(quantize_params_and_weight,\n                                          clients_params_and_weight_rng)\n    new_bits = 0.",
+                                           "    _HOLDER.setdefault('k', aggregator_state.rng)\n    _HOLDER['k'], use_rng = jax.random.split(_HOLDER['k'])\n    rng = _HOLDER['k']\n    rng_seq = hk.PRNGSequence(use_rng)\n    clients_params_and_weight_rng = zip(clients_params_and_weights, rng_seq)\n    quantized_p_and_w = itertools.starmap(quantize_params_and_weight,\n                                          clients_params_and_weight_rng)\n    new_bits = 0."),
+                                          (CO, "@dataclasses.dataclass\nclass CompressionState:", "_HOLDER = {}\n\n\n@dataclasses.dataclass\nclass CompressionState:")],
+     'uniform quantizer keeps its key in a module-level holder instead of the state'),
+    ('C12', 'hyp_skips_update_for_three_clients', [(HY, "      if delta_params is None:\n        # No examples were observed for this cluster.\n", "      if delta_params is None or (len(clients) == 3 and len(server_state.cluster_params) == 1):\n        # No examples were observed for this cluster.\n")],
+     'single-cluster HypCluster skips the server update for cohorts of exactly three clients'),
+    ('C11', 'same_key_for_every_client', [(CO, "    rng, use_rng = jax.random.split(aggregator_state.rng)\n    # TODO(theertha): remove the usage of hk.PRNGSequence.\n    rng_seq = hk.PRNGSequence(use_rng)\n    clients_params_and_weight_rng = zip(clients_params_and_weights, rng_seq)\n    quantized_p_and_w = itertools.starmap(quantize_params_and_weight,\n                                          clients_params_and_weight_rng)\n    new_bits = 0.",
+                                           "    rng, use_rng = jax.random.split(aggregator_state.rng)\n    clients_params_and_weight_rng = zip(clients_params_and_weights, itertools.repeat(use_rng))\n    quantized_p_and_w = itertools.starmap(quantize_params_and_weight,\n                                          clients_params_and_weight_rng)\n    new_bits = 0.")],
+     'uniform quantizer gives every client the same key'),
+    ('C11', 'drop_nan_to_num_uniform', [(CO, "  v = jnp.nan_to_num((v - v_min) / (v_max - v_min))\n  v = jnp.maximum(0., jnp.minimum(v, 1.))\n  # Compute the upper and lower boundary of each value.", "  v = (v - v_min) / (v_max - v_min)\n  v = jnp.maximum(0., jnp.minimum(v, 1.))\n  # Compute the upper and lower boundary of each value.")],
+     'constant leaf gives 0/0 in the uniform quantizer'),
 ]
